@@ -304,11 +304,8 @@ theorem good_mk : Good (ConnSet.mk' false) :=
 theorem good_add {c : ConnSet} (h : Good c) {n : Int} (hn : inRange n) :
     Good (c.addConnection .TCP ((PortSet.mk' false).addPortRange n n)) := by
   refine ⟨IngressLayer.tcpOnly_add h.tcp hn, ?_, plain_addConnection h.plain .TCP ⟨rfl, rfl⟩⟩
-  apply ConnSet.canonical_addConnection .TCP h.tcp.wf
+  exact ConnSet.canonical_addConnection .TCP h.tcp.wf
     (PortSet.wf_addPortRange (PortSet.wf_mk' false) hn.1 hn.2)
-  intro ha
-  rw [h.tcp.allowAll] at ha
-  cases ha
 
 theorem good_peerStep {p : Pod} (hp : ValidPod p) {res : ConnSet} (hr : Good res) (ap : IOS) :
     Good (IngressLayer.peerStep p res ap) := by
